@@ -887,7 +887,10 @@ class SVDMimo(Blast):
             The receive_filter that can be applied to the input data.
         """
         Nt = channel.shape[1]
-        U, S, _ = np.linalg.svd(channel)
+        # Economy-size SVD: with more receive than transmit antennas only
+        # the first Nt left singular vectors belong to the non-zero singular
+        # values (the full Nr x Nr 'U' does not even match the size of 'S')
+        U, S, _ = np.linalg.svd(channel, full_matrices=False)
         G_H = np.diag(1. / S).dot(U.conj().T) * math.sqrt(Nt)
         return G_H
 
